@@ -1416,6 +1416,25 @@ class Prov:
                     ok = rec(v) and ok
                 elif h == 'elem' and how[1] == 'expr':
                     ok = rec(v) and ok
+                elif h == 'unpack' and not how[3]:
+                    # a, b = helper(...) / a, b = x, y: the i-th component of every tuple that may arrive
+                    i, n = how[1], how[2]
+                    comps = []
+                    if isinstance(v, (ast.Tuple, ast.List)) and len(v.elts) == n and not any(isinstance(e, ast.Starred) for e in v.elts):
+                        comps.append((v.elts[i], qual))
+                    elif isinstance(v, ast.Call) and dotted(v.func) not in self.facts.classes:
+                        for c in self.callees(qual, v):
+                            for r in walk_no_nested(self.fn_of(c)):
+                                if isinstance(r, ast.Return) and r.value is not None:
+                                    if isinstance(r.value, (ast.Tuple, ast.List)) and len(r.value.elts) == n and not any(isinstance(e, ast.Starred) for e in r.value.elts):
+                                        comps.append((r.value.elts[i], c))
+                                    else:
+                                        comps.append(None)
+                    if not comps or None in comps:
+                        ok = self._leaf(node, sources, False)
+                    else:
+                        for e, cq in comps:
+                            ok = self.is_abs(e, cq, sources, busy) and ok
                 elif h == 'param':
                     sites = self.call_sites_of(qual)
                     if not sites or qual in self.value_refs():
@@ -1486,6 +1505,44 @@ class Prov:
         return ('atom', unparse(test))
 
     def cwd_guard(self, qual, node):
+        """See _cwd_guard.  `x = <cwd>` binds the value to a name: what matters is where that value is *used* (reading the working
+        directory is harmless, letting it take part in the search for a file's includes is not), so the verdict is the combination
+        of the verdicts of the uses this definition reaches (none: guarded; a use inside a logging call does not count)."""
+        g = self._cwd_guard(qual, node)
+        stmt = node
+        while stmt is not None and not isinstance(stmt, ast.stmt):
+            stmt = getattr(stmt, '_parent', None)
+        if g == 'guarded' or not (isinstance(stmt, ast.Assign) and stmt.value is node and len(stmt.targets) == 1 and isinstance(stmt.targets[0], ast.Name)):
+            return g
+        x = stmt.targets[0].id
+        fn = self.fn_of(qual)
+        verdicts = []
+        for n in walk_fn(fn):
+            if isinstance(n, ast.Name) and n.id == x and isinstance(n.ctx, ast.Load):
+                if not any(v is node for h, v in self.reaching(qual, n) if h[0] == 'expr'):
+                    continue
+                p = getattr(n, '_parent', None)
+                logged = False
+                while p is not None and not isinstance(p, ast.stmt):
+                    if isinstance(p, ast.Call) and ((dotted(p.func) or '').split('.')[0] in ('log', 'logging', 'logger', 'warnings') or dotted(p.func) == 'print'):
+                        logged = True
+                    p = getattr(p, '_parent', None)
+                if not logged:
+                    verdicts.append(self._cwd_guard(qual, n))
+        # nested functions reading x as a free variable are not followed
+        for q2, par in self.cg.parent.items():
+            f2 = self.fn_of(q2)
+            reads = any(isinstance(m, ast.Name) and m.id == x and isinstance(m.ctx, ast.Load) for m in ast.walk(f2))
+            own = x in self.params(f2) or any(isinstance(m, ast.Name) and m.id == x and isinstance(m.ctx, ast.Store) for m in ast.walk(f2))
+            if par == qual and reads and not own:
+                return 'unknown' if g != 'guarded' else g
+        if all(v == 'guarded' for v in verdicts):
+            return 'guarded'
+        if 'unknown' in verdicts:
+            return 'unknown'
+        return g
+
+    def _cwd_guard(self, qual, node):
         """Is `node` executed only when os.path.exists(<the caller's input>) is false (the input is a source *string*)?
         'guarded' | 'unguarded' (decided over fully understood conditions) | 'unknown' (the conditions involve opaque tests)."""
         fn = self.fn_of(qual)
